@@ -88,8 +88,8 @@ def gen_case(r, k, same=None, long_=False):
     # applyBias switched at run time (cv bias a set apply_force 0|1) before some steps
     c["toggle"] = r.random() < 0.2
     # timeStepFactor k > 1 on the bias and its variables (only allowed with same-step total forces): they are
-    # awake at the steps that are multiples of k.  ORACLE ONLY: the Coq model has no timeStepFactor, these cases
-    # are not compared with it.  No restraint (its own timeStepFactor would be 1) and no run-time switching.
+    # awake at the steps that are multiples of k (model: abf_mstep).  No restraint (its own timeStepFactor would be 1)
+    # and no run-time switching.
     c["tsf"] = r.choice([2, 3]) if (same and r.random() < 0.12) else 1
     if c["tsf"] > 1:
         c["toggle"] = False
@@ -100,6 +100,8 @@ def gen_case(r, k, same=None, long_=False):
     # whose zero-mean term must be that of the grids that were read
     per1 = nd == 1 and vars_[0]["periodic"]
     c["events"] = (not c["toggle"]) and c["tsf"] == 1 and r.random() < (0.7 if per1 else 0.3)
+    # the abf bias defined while the simulation is running: 1..3 steps are made before its `config`
+    c["late"] = (not c["toggle"]) and (not c["events"]) and c["tsf"] == 1 and r.random() < 0.15
     nsteps = r.randint(60, 160) if long_ else r.randint(6, 26)
     steps = []
     prev = None
@@ -147,6 +149,11 @@ def gen_case(r, k, same=None, long_=False):
     for t in range(1, nsteps):
         if steps[t].get("event"):
             steps[t]["z"] = list(steps[t - 1]["z"])
+    if c["late"]:
+        npre = r.randint(1, 3)
+        c["pre"] = [{"z": st["z"], "e": st["e"]} for st in steps[:npre]]
+        steps = steps[npre:]
+        steps[0]["boundary"] = False
     if c["toggle"]:
         cur = c["apply"]
         for st in steps[1:]:
@@ -266,8 +273,9 @@ def scale_factor(c, st):
     return Fr(c["sfac"][address(c, ix)]) if in_grid(c, ix) else Fr(1)
 
 
-def config_lines(c):
-    """the configuration given to a new instance (first start and every restart)"""
+def config_lines(c, part="all"):
+    """the configuration given to a new instance (first start and every restart); part = "noabf": everything but the abf
+    block, "abf": the abf block alone (a bias defined while the simulation is running)"""
     nd = len(c["vars"])
     amap, natoms = atom_map(c)
     L = ["config EOF"]
@@ -315,8 +323,31 @@ def config_lines(c):
         v = c["vars"][d]
         harm += ["harmonic {", "  name h%d" % d, "  colvars v%d" % d, "  centers %s" % fmt(v["hc"]),
                  "  forceConstant %s" % fmt(v["hk"]), "}"]
+    if part == "abf":
+        return ["config EOF"] + abf + ["EOF"]
+    if part == "noabf":
+        return L + harm + ["EOF"]
     L += (abf + harm) if c["abf_first"] else (harm + abf)
     L += ["EOF"]
+    return L
+
+
+def emit_inputs(c, st, amap):
+    """positions and engine forces of one step"""
+    L = []
+    for d in range(len(c["vars"])):
+        a, a0 = amap[d]
+        L.append("pos %d 0 0 %s" % (a, V.hexf(st["z"][d])))
+        L.append("eforce %d 0 0 %s" % (a, V.hexf(st["e"][d])))
+        if a0 is not None and kind(c["vars"][d]) == "lin2":
+            # value = z_a + c2 * z_b with z_b = c2/4: z_a = value - 1/4; both components feel the variable force e
+            c2 = c["vars"][d]["c2"]
+            L[-2] = "pos %d 0 0 %s" % (a, V.hexf(st["z"][d] - 0.25))
+            L.append("pos %d 0 0 %s" % (a0, V.hexf(0.25 * c2)))
+            L.append("eforce %d 0 0 %s" % (a0, V.hexf(c2 * st["e"][d])))
+        elif a0 is not None:     # the partner atom of a distance stays at the origin and feels the opposite force
+            L.append("pos %d 0 0 0" % a0)
+            L.append("eforce %d 0 0 %s" % (a0, V.hexf(-st["e"][d])))
     return L
 
 
@@ -329,8 +360,16 @@ def scenario(c):
     amap, natoms = atom_map(c)
     L = ["echo CASE %s" % c["id"], "natoms %d" % natoms, "samestep %d" % (1 if c["same"] else 0), "includecv 1",
          "temperature %s" % fmt(c.get("T", 0.0)), "prefix %s" % c["id"], "new"]
-    L += config_lines(c)
-    L += ["show cv 0 energy 0 bias 0 atomf 0"]
+    if c.get("pre"):
+        # the abf bias is defined after the engine has made some steps with the variables and the other biases
+        L += config_lines(c, "noabf")
+        L += ["show cv 0 energy 0 bias 0 atomf 0"]
+        for st in c["pre"]:
+            L += emit_inputs(c, st, amap) + ["step"]
+        L += config_lines(c, "abf")
+    else:
+        L += config_lines(c)
+        L += ["show cv 0 energy 0 bias 0 atomf 0"]
     cur_apply = c["apply"]
     nev = 0
     for st in c["steps"]:
@@ -344,19 +383,7 @@ def scenario(c):
                 cur_apply = c["apply"]
             L += ["load %s" % state_name(c, nev), "echo LOADED", "dumpabf a"]
             nev += 1
-        for d in range(nd):
-            a, a0 = amap[d]
-            L.append("pos %d 0 0 %s" % (a, V.hexf(st["z"][d])))
-            L.append("eforce %d 0 0 %s" % (a, V.hexf(st["e"][d])))
-            if a0 is not None and kind(c["vars"][d]) == "lin2":
-                # value = z_a + c2 * z_b with z_b = c2/4: z_a = value - 1/4; both components feel the variable force e
-                c2 = c["vars"][d]["c2"]
-                L[-2] = "pos %d 0 0 %s" % (a, V.hexf(st["z"][d] - 0.25))
-                L.append("pos %d 0 0 %s" % (a0, V.hexf(0.25 * c2)))
-                L.append("eforce %d 0 0 %s" % (a0, V.hexf(c2 * st["e"][d])))
-            elif a0 is not None:     # the partner atom of a distance stays at the origin and feels the opposite force
-                L.append("pos %d 0 0 0" % a0)
-                L.append("eforce %d 0 0 %s" % (a0, V.hexf(-st["e"][d])))
+        L += emit_inputs(c, st, amap)
         if apply_at(c, st) != cur_apply:
             cur_apply = apply_at(c, st)
             L.append("script cv bias a set apply_force %d" % (1 if cur_apply else 0))
@@ -402,6 +429,7 @@ def model_case(c, im=None):
     for v in vs:
         nt *= v["nx"]
     parts += [str(int(bool(c.get("scaled"))))] + [V.hexf(x) for x in (c["sfac"] if c.get("scaled") else [1.0] * nt)]
+    parts += [str(c.get("tsf", 1)), str(len(c.get("pre", [])))]
     parts += [str(len(inputs_of(c)))]
     for ds in inputs_of(c):
         parts += [str(x) for x in ds["cnt"]] + [V.hexf(g) for g in ds["grad"]]
@@ -503,6 +531,8 @@ def parse_model(line):
 def clocks(c):
     out = []
     rel, started = 0, False
+    if c.get("pre"):
+        rel, started = len(c["pre"]) - 1, True
     for st in c["steps"]:
         ev = st.get("event")
         if ev:
@@ -980,7 +1010,7 @@ def judge_toggle(c, steps):
 
 
 def witness_hidej_switched():
-    """W7 (known defect): hideJacobian, lagged forces, distance variable, applyBias on at step 0 and switched off before step 1."""
+    """W7 (repaired in fix-C04-3): hideJacobian, lagged forces, distance variable, applyBias on at step 0 and switched off before step 1."""
     v = _v1(kind="dist", onesite=False, lower=1.0, upper=3.0)
     c = _c1("W7", v, [(1.5, 1.0, False)] * 3, same=False, apply=True, hideJ=True, T=1000.0, toggle=True)
     for t, a in enumerate([True, False, False]):
@@ -1033,6 +1063,29 @@ def judge_restart_zero_mean(c, steps):
     return None
 
 
+def witness_late():
+    """W11: the abf bias is defined after two engine steps (lagged forces), variable in bin 1, engine force 3: nothing may enter bin 0."""
+    c = _c1("W11", _v1(), [(1.5, 3.0, False)] * 3, full=2, min=0, apply=True)
+    c["pre"] = [{"z": [1.5], "e": [3.0]}, {"z": [1.5], "e": [3.0]}]
+    return c
+
+
+def witness_late_sub():
+    """W11b: the same with subtractAppliedForce (the variable already measures total forces when the bias is defined)."""
+    c = _c1("W11b", _v1(sub=True), [(1.5, 3.0, False)] * 3, full=2, min=0, apply=True)
+    c["pre"] = [{"z": [1.5], "e": [3.0]}, {"z": [1.5], "e": [3.0]}]
+    return c
+
+
+def judge_late(c, steps):
+    last = steps[-1]
+    if last["cnt"] != [0, 2] or last["sum"] != [0.0, -6.0]:
+        return ("abf bias defined by a second `config` after two engine steps, lagged total forces, variable at 1.5 (bin 1), engine force 3: after three steps "
+                "of the bias the counts must be (0, 2) and the sums (0, -6): bin 0 was never visited; the implementation has counts %s and sums %s "
+                "(the first update files a sample in force_bin, which was initialised to bin 0)" % (last["cnt"], last["sum"]))
+    return None
+
+
 WITNESSES = ((witness_zero_total, "sample:subtractAppliedForce-zero-total-force", judge_zero_total),
              (witness_zero_total_abf, "sample:subtractAppliedForce-zero-total-force", judge_zero_total_abf),
              (witness_value_zero, "sample:force-dropped-at-value-zero", judge_value_zero),
@@ -1044,7 +1097,9 @@ WITNESSES = ((witness_zero_total, "sample:subtractAppliedForce-zero-total-force"
              (witness_toggle, "sample:applyBias-switched-stale-applied-force", judge_toggle),
              (witness_hidej_switched, "sample:hideJacobian-applyBias-switched", judge_hidej_switched),
              (witness_input, "sample:inputPrefix-data", judge_input),
-             (witness_restart_zero_mean, "force:periodic-zero-mean", judge_restart_zero_mean))
+             (witness_restart_zero_mean, "force:periodic-zero-mean", judge_restart_zero_mean),
+             (witness_late, "sample:bias-defined-at-run-time-bin0", judge_late),
+             (witness_late_sub, "sample:bias-defined-at-run-time-bin0", judge_late))
 
 
 # ------------------------------------------------------------------------------- running
@@ -1096,15 +1151,20 @@ SHOWN = ("bin", "fbin", "cf", "tf", "af", "cnt", "sum", "go")
 
 def tie_case(run, c, im, mline):
     """implementation vs model, step by step, every field bit-exact"""
-    if c.get("tsf", 1) > 1:
-        return      # timeStepFactor is not in the model: these cases are judged by the oracle alone
+    # timeStepFactor > 1: the driver runs abf_mstep (awake / asleep steps)
     steps_i = im["steps"]
     msteps, spec = parse_model(mline) if mline is not None else ([], None)
     if len(msteps) != len(steps_i):
         run.mismatch("abf:steps", {"case": c}, len(steps_i), len(msteps))
         return
     for t, (a, b) in enumerate(zip(steps_i, msteps)):
-        bad = compare_fields(a, b)
+        if t == 0 and c.get("pre"):
+            # first update of a bias defined at run time: the reported total force of a variable that was already measuring
+            # total forces (subtractAppliedForce) is that of the last step before the definition, which the model of the
+            # bias does not contain; everything else is compared
+            bad = compare_fields(a, b, keys=("bin", "fbin", "cnt", "sum", "cf", "af", "go"))
+        else:
+            bad = compare_fields(a, b)
         if bad:
             # component names share their first token with the oracle signatures of the same family
             comp = {"cf": "force:cf", "af": "force:af", "go": "sample:gradient", "tf": "sample:sum:tf"}.get(bad, "sample:" + bad)
@@ -1138,7 +1198,7 @@ def check(run):
 
     run_witnesses(run, unit, model, d)
 
-    n = 400 if quick else 20000
+    n = 320 if quick else 20000
     cases = []
     # corpus first
     cp = os.path.join(V.ROOT, "corpus", "C04_cases.txt")
@@ -1200,10 +1260,11 @@ def check(run):
         run.dist("scaledBiasingForce", 1 if c.get("scaled") else 0)
         run.dist("inputPrefix_datasets", len(inputs_of(c)))
         run.dist("applyBias_switched_at_run_time", 1 if c.get("toggle") else 0)
+        run.dist("abf_defined_at_run_time", 1 if c.get("pre") else 0)
         for stp in c["steps"]:
             if stp.get("event"):
                 run.dist("state_%s_%s" % (stp["event"]["kind"], stp["event"]["fmt"]))
-        run.dist("timeStepFactor>1 (oracle only)", 1 if c.get("tsf", 1) > 1 else 0)
+        run.dist("timeStepFactor>1", 1 if c.get("tsf", 1) > 1 else 0)
         if im.get("state") is not None:
             nstate += 1
         # property oracle on the implementation alone
